@@ -428,7 +428,7 @@ UNIT = {
             'src': {'kind': 'slice', 'name': 'mark',
                     'in': {'file': SRC + 'compilation/analyzer/decl/docs.rs', 'kind': 'fn', 'name': 'analyze_doc_tag_meta'},
                     'from': r'analyzer\.db\.get_module_index_mut\(\)\.set_meta\(file_id\);\s*analyzer\.is_meta = true;',
-                    'to': r'analyzer\.db\.get_module_index_mut\(\)\.set_meta\(file_id\);\s*\}\s*\}',
+                    'to': r'\n    \}(?=\n)',   # the end of the `if let Some(name_token) = tag.get_name_token() { .. }` block (first closing brace at the indentation of the fn body), not a particular statement: a change INSIDE the block stays inside the slice
                     'head': 'pub fn mark(index: &mut LuaModuleIndex, analyzer: &mut DeclAnalyzerMetaSink, tag: &LuaDocTagMeta, file_id: FileId) -> Option<()>',
                     'tail': 'Some(())'},
             'rules': ['analyzer-db-module-index'],
